@@ -54,6 +54,7 @@ CPPScope(CPPScope *parent_scope,
   _fully_specified_known = false;
   _is_fully_specified_recursive_protect = false;
   _subst_decl_recursive_protect = false;
+  _using_search_protect = false;
 }
 
 /**
@@ -564,12 +565,20 @@ find_type(const string &name, bool recurse) const {
     return ti->second;
   }
 
-  Using::const_iterator ui;
-  for (ui = _using.begin(); ui != _using.end(); ++ui) {
-    CPPType *type = (*ui)->find_type(name, false);
-    if (type != nullptr) {
-      return type;
+  if (!_using_search_protect) {
+    // Scopes can name each other in using-directives ("namespace A { using
+    // namespace B; } namespace B { using namespace A; }"); don't go round in
+    // circles.
+    ((CPPScope *)this)->_using_search_protect = true;
+    Using::const_iterator ui;
+    for (ui = _using.begin(); ui != _using.end(); ++ui) {
+      CPPType *type = (*ui)->find_type(name, false);
+      if (type != nullptr) {
+        ((CPPScope *)this)->_using_search_protect = false;
+        return type;
+      }
     }
+    ((CPPScope *)this)->_using_search_protect = false;
   }
 
   if (_struct_type != nullptr) {
@@ -615,12 +624,20 @@ find_type(const string &name, CPPDeclaration::SubstDecl &subst,
       (subst, current_scope, global_scope)->as_type();
   }
 
-  Using::const_iterator ui;
-  for (ui = _using.begin(); ui != _using.end(); ++ui) {
-    CPPType *type = (*ui)->find_type(name, subst, global_scope, false);
-    if (type != nullptr) {
-      return type;
+  if (!_using_search_protect) {
+    // Scopes can name each other in using-directives ("namespace A { using
+    // namespace B; } namespace B { using namespace A; }"); don't go round in
+    // circles.
+    ((CPPScope *)this)->_using_search_protect = true;
+    Using::const_iterator ui;
+    for (ui = _using.begin(); ui != _using.end(); ++ui) {
+      CPPType *type = (*ui)->find_type(name, subst, global_scope, false);
+      if (type != nullptr) {
+        ((CPPScope *)this)->_using_search_protect = false;
+        return type;
+      }
     }
+    ((CPPScope *)this)->_using_search_protect = false;
   }
 
   if (_struct_type != nullptr) {
@@ -704,12 +721,20 @@ find_scope(const string &name, CPPScope *global_scope, bool recurse) const {
     }
   }
 
-  Using::const_iterator ui;
-  for (ui = _using.begin(); ui != _using.end(); ++ui) {
-    CPPScope *scope = (*ui)->find_scope(name, global_scope, false);
-    if (scope != nullptr) {
-      return scope;
+  if (!_using_search_protect) {
+    // Scopes can name each other in using-directives ("namespace A { using
+    // namespace B; } namespace B { using namespace A; }"); don't go round in
+    // circles.
+    ((CPPScope *)this)->_using_search_protect = true;
+    Using::const_iterator ui;
+    for (ui = _using.begin(); ui != _using.end(); ++ui) {
+      CPPScope *scope = (*ui)->find_scope(name, global_scope, false);
+      if (scope != nullptr) {
+        ((CPPScope *)this)->_using_search_protect = false;
+        return scope;
+      }
     }
+    ((CPPScope *)this)->_using_search_protect = false;
   }
 
   if (recurse && _parent_scope != nullptr) {
@@ -785,12 +810,20 @@ find_symbol(const string &name, bool recurse) const {
     return (*vi).second;
   }
 
-  Using::const_iterator ui;
-  for (ui = _using.begin(); ui != _using.end(); ++ui) {
-    CPPDeclaration *decl = (*ui)->find_symbol(name, false);
-    if (decl != nullptr) {
-      return decl;
+  if (!_using_search_protect) {
+    // Scopes can name each other in using-directives ("namespace A { using
+    // namespace B; } namespace B { using namespace A; }"); don't go round in
+    // circles.
+    ((CPPScope *)this)->_using_search_protect = true;
+    Using::const_iterator ui;
+    for (ui = _using.begin(); ui != _using.end(); ++ui) {
+      CPPDeclaration *decl = (*ui)->find_symbol(name, false);
+      if (decl != nullptr) {
+        ((CPPScope *)this)->_using_search_protect = false;
+        return decl;
+      }
     }
+    ((CPPScope *)this)->_using_search_protect = false;
   }
 
   if (_struct_type != nullptr) {
@@ -826,12 +859,20 @@ find_template(const string &name, bool recurse) const {
     return (*ti).second;
   }
 
-  Using::const_iterator ui;
-  for (ui = _using.begin(); ui != _using.end(); ++ui) {
-    CPPDeclaration *decl = (*ui)->find_template(name, false);
-    if (decl != nullptr) {
-      return decl;
+  if (!_using_search_protect) {
+    // Scopes can name each other in using-directives ("namespace A { using
+    // namespace B; } namespace B { using namespace A; }"); don't go round in
+    // circles.
+    ((CPPScope *)this)->_using_search_protect = true;
+    Using::const_iterator ui;
+    for (ui = _using.begin(); ui != _using.end(); ++ui) {
+      CPPDeclaration *decl = (*ui)->find_template(name, false);
+      if (decl != nullptr) {
+        ((CPPScope *)this)->_using_search_protect = false;
+        return decl;
+      }
     }
+    ((CPPScope *)this)->_using_search_protect = false;
   }
 
   if (_struct_type != nullptr) {
